@@ -1125,6 +1125,17 @@ class AbsInt:
             if 'Integral' in names or 'int' in names or 'Real' in names or 'Number' in names:
                 return True
             return False
+        if v is None:
+            return 'NoneType' in unparse(node.args[1])
+        if isinstance(v, (bytes, bytearray)):
+            return 'bytes' in unparse(node.args[1])
+        if isinstance(v, bool):
+            names = unparse(node.args[1])
+            return 'Integral' in names or 'int' in names or 'Real' in names or 'bool' in names
+        if isinstance(v, (list, tuple, AList, ADict, dict)):
+            names = unparse(node.args[1])
+            if not any(k in names for k in ('list', 'tuple', 'dict', 'Sequence', 'Iterable', 'Mapping', 'bytearray')):
+                return False
         if isinstance(v, int) and not isinstance(v, bool) or isinstance(v, float) or isinstance(v, str):
             names = unparse(node.args[1])
             if isinstance(v, int):
